@@ -201,7 +201,12 @@ pub fn check_tcp_law(c: &TcpLaw, st: &mut Stats) -> Result<(), Fail> {
         }
         2 => {
             // quirks: add one that is absent, or remove one
-            let all: Vec<dt::Quirk> = (0..17u8).map(sig::quirk_db).collect();
+            // only quirks that exist for the observation's IP version are decisive (df, id+, id-, 0+: IPv4; flow: IPv6)
+            let relevant = |q: &dt::Quirk| -> bool {
+                use dt::Quirk::*;
+                !matches!((p.version, q), (dt::IpVersion::V6, Df | NonZeroID | ZeroID | MustBeZero) | (dt::IpVersion::V4, FlowID))
+            };
+            let all: Vec<dt::Quirk> = (0..17u8).map(sig::quirk_db).filter(|q| relevant(q)).collect();
             if how % 2 == 0 || p.quirks.is_empty() {
                 let absent: Vec<&dt::Quirk> = all.iter().filter(|q| !p.quirks.contains(q)).collect();
                 if absent.is_empty() {
@@ -211,7 +216,7 @@ pub fn check_tcp_law(c: &TcpLaw, st: &mut Stats) -> Result<(), Fail> {
             } else {
                 let i = idx(how, p.quirks.len());
                 let removed = p.quirks.remove(i);
-                if p.quirks.contains(&removed) {
+                if p.quirks.contains(&removed) || !relevant(&removed) {
                     // a duplicate token was removed: the quirk *set* is unchanged, nothing is demanded
                     return Ok(());
                 }
@@ -428,12 +433,14 @@ pub fn check_http_law(ctx: &Ctx, c: &HttpLaw, st: &mut Stats) -> Result<(), Fail
         }
     }
     // L3: change the value of k required headers: errors = k exactly -> band(k)
-    let req_idx: Vec<usize> = horder.iter().enumerate().filter(|(_, h)| sig.horder.iter().any(|s| !s.optional && s.name == h.name && s.value == h.value)).map(|(i, _)| i).collect();
+    // required headers whose listed value is a non-empty string (an empty listed value is contained in anything)
+    let req_idx: Vec<usize> = horder.iter().enumerate().filter(|(_, h)| sig.horder.iter().any(|s| !s.optional && s.name == h.name && s.value == h.value && s.value.as_deref().map(|v| !v.is_empty()).unwrap_or(true))).map(|(i, _)| i).collect();
     if !ambiguous && !req_idx.is_empty() {
         let k = (c.changes as usize).min(req_idx.len());
         let mut h2 = horder.clone();
         for i in req_idx.iter().take(k) {
-            h2[*i].value = Some(format!("{}-changed", h2[*i].value.clone().unwrap_or_default()));
+            // a value that does not contain the listed one (listed values are substrings)
+            h2[*i].value = Some("\u{1}\u{2}".to_string());
         }
         let (d3, q3) = hdist(&sig, h2, habsent.clone(), version, expsw.clone(), c.response);
         let exp = band(k as u32).map(|b| b + base);
@@ -564,7 +571,7 @@ pub fn run(ctx: &Ctx) {
             (tq(&tsig, d), <huginn_net_db::http::Signature as DatabaseSignature<HttpRequestObservation>>::get_quality_score(&hsig, d))
         };
         let mut prev = if lo == 0 { (1.0f32, 1.0f32) } else { q((lo - 1) as u32) };
-        let mut check = |d: u32, prev: &mut (f32, f32), st: &mut Stats| {
+        let check = |d: u32, prev: &mut (f32, f32), st: &mut Stats| {
             let (a, b) = q(d);
             st.evals += 1;
             for (name, x, p) in [("tcp", a, prev.0), ("http", b, prev.1)] {
